@@ -1,3 +1,4 @@
+import math
 # Case generators of the correspondence check, one family per operation group.
 # Constructive and cell-directed (DESIGN 4.3); every random choice comes from the rng handed in.
 from dec import *
@@ -126,7 +127,34 @@ def pair_mul_underflow(rng):
     return fin(rng.randint(0, 1), A, e1), fin(rng.randint(0, 1), B, e2)
 
 
+def coeff_pair_wordpattern(rng):
+    """two coefficients (a, b) < 10^34 such that a 64-bit half h of a times b is m*2^k -/+ r with r tiny (k = 64 or 128): a word of the
+    partial product the multi-word multiply forms is all ones (a pending carry ripples through it) or all zeros with a small residue;
+    the other half of a is biased to the extremes so that the column below does / does not carry"""
+    for _ in range(40):
+        hi = rng.random() < 0.6
+        h = rng.randrange(1 << rng.randint(20, 48), 0x1ed09bead87c0) if hi else rng.getrandbits(64) | (1 << rng.randint(40, 63))
+        k = rng.choice([64, 128, 128])
+        mmax = (h * (T34 - 1)) >> k
+        if mmax < 2: continue
+        m = rng.randrange(max(1, mmax // 1000), mmax)
+        b = (m << k) // h + rng.choice([0, 0, 1])
+        if not 0 < b < T34: continue
+        other = rng.choice([rng.getrandbits(64), M64, M64 - rng.getrandbits(8), (1 << 63) | rng.getrandbits(63), rng.getrandbits(10), 0, 1 << 63])
+        a = (h << 64 | other) if hi else ((rng.randrange(0, 0x1ed09bead87c0) << 64) | h)
+        if not 0 < a < T34: continue
+        return a, b
+    return coeff(rng), coeff(rng)
+
+
+def pair_mul_wordpattern(rng):
+    a, b = coeff_pair_wordpattern(rng)
+    x, y = fin(rng.randint(0, 1), a, rng.randint(-40, 40)), fin(rng.randint(0, 1), b, rng.randint(-40, 40))
+    return (x, y) if rng.random() < 0.5 else (y, x)
+
+
 def pair_mul(rng):
+    if rng.random() < 0.10: return pair_mul_wordpattern(rng)
     if rng.random() < 0.12: return pair_mul_underflow(rng)
     k = rng.random()
     if k < 0.30:      # product with an exact-half (or near) tail: x odd-ish times 5, 25, 125, ...
@@ -207,7 +235,77 @@ def gen_div(rng, n):
         yield line('div', rng.choice(MODES), status_in(rng), x, y)
 
 
+# ---- square roots a hair away from an integer / a midpoint (|C*10^s - n^2| <= 400: the correction steps after the approximate root)
+def sqrt_mod_pk(a, p, k):
+    # odd p
+    a %= p**k
+    r = None
+    for x in range(p):
+        if (x*x - a) % p == 0 and x % p != 0: r = x; break
+    if r is None: return None
+    m = p
+    for i in range(1, k):
+        m *= p
+        # Newton: r = r - (r^2-a)/(2r) mod m
+        inv = pow(2*r, -1, m)
+        r = (r - (r*r - a) * inv) % m
+    return r
+def sqrt_mod_2k(a, k):
+    a %= 1 << k
+    if k <= 3:
+        for x in range(1, 1 << k, 2):
+            if (x*x - a) % (1 << k) == 0: return x
+        return None
+    if a % 8 != 1: return None
+    x = 1
+    for j in range(3, k):
+        if (x*x - a) % (1 << (j+1)) != 0: x += 1 << (j-1)
+    assert (x*x - a) % (1 << k) == 0
+    return x
+def crt(r1, m1, r2, m2):
+    return (r1 + m1 * (((r2 - r1) * pow(m1, -1, m2)) % m2)) % (m1*m2)
+def sqrt_near(rng, mid):
+    """CX, s with CX*10^s = n^2+delta (mid=False) or 4*CX*10^s = n^2+delta, n odd (mid=True), delta tiny"""
+    for _ in range(200):
+        s = rng.choice([33, 34])
+        k2 = s + (2 if mid else 0)
+        delta = rng.choice([1,-1]) * rng.randint(1, 400)
+        a = -delta
+        r2 = sqrt_mod_2k(a, k2); r5 = sqrt_mod_pk(a, 5, s)
+        if r2 is None or r5 is None: continue
+        r2 = rng.choice([r2, (1<<k2) - r2]); 
+        if k2 > 3 and rng.random() < 0.5: r2 = (r2 + (1 << (k2-1))) % (1 << k2)
+        r5 = rng.choice([r5, 5**s - r5])
+        M = (1 << k2) * 5**s
+        n0 = crt(r2, 1 << k2, r5, 5**s)
+        assert (n0*n0 + delta) % M == 0
+        # n range: C256 in [10^(33+s), 10^(34+s)) => n^2 in that range (x4 for mid)
+        lo, hi = 10**(33+s), 10**(34+s)
+        if mid: lo *= 4; hi *= 4
+        # period of solutions: M/2 for 2-part (x+2^(k-1) also solution) -> handled above; step M
+        kmin = (math.isqrt(lo) - n0) // M + 1; kmax = (math.isqrt(hi) - n0) // M
+        if kmax < kmin: continue
+        n = n0 + M * rng.randint(kmin, kmax)
+        v = n*n + delta
+        cx = v // M if mid else v // 10**s
+        if mid: assert v % (4*10**s) == 0
+        if not (10**33 <= cx < 10**34): continue
+        return cx, s, delta, n
+    return None
+
+
+def arg_sqrt_near(rng):
+    r = sqrt_near(rng, rng.random() < 0.5)
+    if r is None: return fin(0, coeff(rng), expo(rng))
+    cx, s, _, _ = r
+    e = rng.randint(-3000, 3000)
+    if (e - s) % 2: e += 1
+    return fin(0, cx, e)
+
+
 def arg_sqrt(rng):
+    k = rng.random()
+    if k < 0.12: return arg_sqrt_near(rng)
     k = rng.random()
     if k < 0.35:      # perfect squares and neighbours, both exponent parities
         r = coeff(rng, rng.randint(1, 17)); c = r * r + rng.choice([0, 0, 0, 1, -1])
@@ -418,6 +516,9 @@ def triple_fma_pow10z(rng):
 
 
 def triple_fma(rng):
+    if rng.random() < 0.06:
+        x, y = pair_mul_wordpattern(rng)
+        return x, y, rng.choice([fin(rng.randint(0, 1), 0, expo(rng)), finite(rng, e=rng.randint(-80, 80)), fin(rng.randint(0, 1), coeff(rng), rng.randint(-40, 40))])
     if rng.random() < 0.07: return triple_fma_pow10z(rng)
     if rng.random() < 0.06: return triple_fma_halfway_addend(rng)
     if rng.random() < 0.08:      # product with patterned low digits in the underflow zone (double-rounding traps), small / zero addend
@@ -945,7 +1046,10 @@ def gen_fmt(rng, n):
             pos = rng.randint(0, 18); v = rng.randint(0, 63); c = (c & ~(63 << (6 * pos))) | (v << (6 * pos))
         else:
             pos = rng.randint(0, 11); g = rng.randint(0, 999); c = (c // 1000 ** (pos + 1)) * 1000 ** (pos + 1) + g * 1000 ** pos + c % (1000 ** pos)
-        yield line('fmt', 0, 0, fin(rng.randint(0, 1), c % T34, expo(rng)))
+        e = expo(rng)
+        if rng.random() < 0.3:   # exponents whose decimal spelling is on a digit-count / digit-group boundary
+            e = rng.choice([1, -1]) * (rng.choice([1000, 100, 10]) * rng.randint(1, 9) + rng.choice([0, 0, 0, -1, 1])); e = max(QMIN, min(QMAX, e))
+        yield line('fmt', 0, 0, fin(rng.randint(0, 1), c % T34, e))
     for i in range(n - 2 * m):
         yield line('fmt', 0, 0, datum(rng, 0.25) if rng.random() < 0.8 else rng.getrandbits(128))
 
@@ -1041,11 +1145,18 @@ GARBAGE = ['', ' ', '+', '-', '.', '+.', '-.', '1e', '1E+', '1E-', 'e5', '1.2.3'
            '1ñ', '1e٣', 'infinit', 'in', 'nanx', 'na', 'snanx', 'sna', '1x', 'x1', '0x10', '1e+', '.e1', 'e', 'E', '+e1', '1 2', '1e 5', 'NaN1', 'Inf1', '1_000', '١٢٣', '１２３', '1\x00', '\x001']
 
 
+SP_PREFIX = ['', '+', '-', '.', '0', '1', '9', '5', ' ', '\t', '+.', '-.', '-0', '1.', '0.', '.0', '1e', '1e5', '1e+5', 'e', '++', '+-', '- ', '12', '00', 'x', 'ñ']
+SP_SUFFIX = ['', '', '', 'x', '1', '0', '.', ' ', 'e5', '(12)', 'ity', 'inf', 'nan', 'ñ', 'q', '+', 's']
+
+
 def gen_parse(rng, n):
     ops = ['parse'] * 6 + ['fromstr', 'fromstr2']
     for _ in range(n):
         k = rng.random(); op = rng.choice(ops)
-        if k < 0.62: s = literal(rng)
+        if k < 0.05:        # grammar fragments glued around a special spelling ("1snan", ".inf", "+ nan", "snan(12)", "1e5inf" ...)
+            sp = rng.choice(SPECIAL_SPELLINGS + ['snan', 'snan']); sp = ''.join(ch.upper() if rng.random() < 0.5 else ch for ch in sp)
+            s = rng.choice(SP_PREFIX) + sp + rng.choice(SP_SUFFIX)
+        elif k < 0.62: s = literal(rng)
         elif k < 0.70: s = literal(rng, 300)
         elif k < 0.76:
             sp = rng.choice(SPECIAL_SPELLINGS); sp = ''.join(ch.upper() if rng.random() < 0.5 else ch for ch in sp)
@@ -1072,7 +1183,7 @@ def gen_operators(rng, n):
         elif k < 0.8:
             yield line('o_neg', 0, 0, datum(rng, 0.5)); continue
         else:
-            m = rng.randint(0, 5); yield line(rng.choice(['sum', 'product']), 0, 0, *[datum(rng, 0.08) for _ in range(m)]); continue
+            m = rng.choice([0, 1, 1, 2, 3, 4, 5]); yield line(rng.choice(['sum', 'product']), 0, 0, *[datum(rng, 0.3 if m == 1 else 0.08) for _ in range(m)]); continue
         yield line(op, 0, 0, x, y)
 
 
